@@ -273,6 +273,13 @@ def dense_output_dtype(ctx, rng):
     for j, col in enumerate(cols):
         code = [c for c in codes if c != common][j % (len(codes) - 1)]
         entries[(code, col)] = sorted(set(int(r) for r in rng.integers(0, nrows, size=2)))
+    if cols and ncols <= 2 and nrows <= 3 and rng.random() < 0.5:
+        # every cell listed explicitly and the common value (given with new_common=, occurring nowhere) far outside
+        # the range of the codes: it is still what the output is initialised with
+        code = [c for c in codes if c != common][0]
+        entries = {(code, col): list(range(nrows)) for col in range(ncols)}
+        common = int(rng.choice([-1, 1000, 70000, 2 ** 32, -40000]))
+        ctx.count("consequence:dense_output_dtype_of_a_fully_explicit_index")
     # with a mapping: keys are exactly the stored codes, the common value listed or not (then 0 fills)
     targets_cls = [[10, 20, 30, 40], [1, 2, 3, 255], [0, 5, 256, 7], [-1, 4, 5, 6], [100, 200, 300, 70000]]
     targets = [int(v) for v in targets_cls[int(rng.integers(0, len(targets_cls)))]]
@@ -386,11 +393,21 @@ def indx_words_case(ctx, io_, keys, common):
     ent = {tuple(int(c) for c in key): numpy.array([pos], dtype=numpy.uint32) for pos, key in enumerate(keys)}
     with tempfile.TemporaryFile() as f:
         io_.IndxIO.save(f, ent, common, numpy.dtype(numpy.uint32))
+        f.seek(21)
+        word = f.read(1)[0]
         f.seek(0)
         loaded, lcommon, _ = io_.IndxIO.load(f)
         lkeys = set(loaded)
         del loaded
     ctx.count("consequence:indx_words_checked")
+    biggest = max([c for key in ent for c in key] + [common])
+    narrowest = expected(0, biggest)
+    if narrowest is not None and word != narrowest.itemsize:
+        ctx.violation("insitu:indx-coordinate-word:%s" % ("too-wide" if word > narrowest.itemsize else "too-narrow"),
+                      "INDX coordinate word is %d byte(s) for values up to %d; the narrowest unsigned word holding them has %d"
+                      % (word, biggest, narrowest.itemsize),
+                      {"kind": "indx_words", "keys": [list(k) for k in ent], "common": common})
+        return
     if lkeys != set(ent) or lcommon != common:
         ctx.violation("insitu:indx-coordinate-wrapped",
                       "INDX coordinate word too narrow: saved keys %r common %r, loaded keys %r common %r"
